@@ -76,8 +76,8 @@ CASES = [
     dict(name='g_backtrack', cxx="sor< seq< any, eol, one< 'x' > >, seq< any, any > >", eats='\n\r', alphabet='ax\\n\\r', quick=1,
          d12="(c06_s + 4 <= c06_n && c06_buf[c06_s + 1] == '\\r' && c06_buf[c06_s + 2] == '\\n' && c06_buf[c06_s + 3] == 'x')"),
     dict(name='g_raise', cxx='seq< until< eol >, must< eof > >', eats='\n\r', can_raise=1, d12=D12_FIRST_CR, helpers=H_FIRST_CR, quick=1),
-    dict(name='g_star', cxx="star< sor< eol, one< 'a', '\\n' > > >", eats='\n\r', can_fail=0, d12='c06_star_hits_crlf()', helpers=H_STAR, alphabet='ab\\n\\r'),
-    dict(name='g_star_opt', cxx="seq< star< sor< eol, one< 'a', '\\n' > > >, one< 'b' > >", eats='\n\r', d12='c06_star_hits_crlf()', helpers=H_STAR, alphabet='ab\\n\\r', mode='optional'),
+    dict(name='g_star', cxx="star< sor< eol, one< 'a', '\\n' > > >", eats='\n\r', can_fail=0, d12='c06_star_hits_crlf()', helpers=H_STAR, alphabet='ab\\n\\r', nmax=4, loops=1),
+    dict(name='g_star_opt', cxx="seq< star< sor< eol, one< 'a', '\\n' > > >, one< 'b' > >", eats='\n\r', d12='c06_star_hits_crlf()', helpers=H_STAR, alphabet='ab\\n\\r', mode='optional', nmax=4, loops=1),
     # positions stored in parse-tree nodes (node::start/success as called by parse_tree::parse, then node.begin()/end())
     dict(name='tree', cxx='sor< eol, any >', eats='\n\r', d12=D12_AT_S, tree=1, quick=1),
     dict(name='raw_string', cxx="raw_string< '[', '=', ']' >", eats='\n\r', includes=['tao/pegtl/contrib/raw_string.hpp'], alphabet='[=]a\\n\\r', nmax=4, heavy=1,
@@ -123,12 +123,12 @@ def c_char(ch):
 
 def plan(ctx):
     qs = []
-    N = 4 if ctx.quick() else 6
+    N = 4 if ctx.quick() else 5
     CMAX = '1000' if ctx.quick() else '(1ULL << 40)'
     for c in CASES:
         if ctx.quick() and not c.get('quick'):
             continue
-        n = min(N, c.get('nmax', N))
+        n = min(N + (0 if ctx.quick() else c.get('deep', 0)), c.get('nmax', N))
         mode = c.get('mode', 'required')
         unit = ctx.unit('c06_' + c['name'], text=(WRAP_TREE if c.get('tree') else WRAP) % {'cxx': c['cxx'], 'name': c['name'], 'mode': mode,
                                                         'includes': '\n'.join('#include <%s>' % i for i in c.get('includes', []))})
@@ -151,7 +151,7 @@ def plan(ctx):
             cd = {'VF_SPLIT': 1, 'V_' + pol: 1}
             bounds = {'bytes': n, 'rule': c['cxx'], 'policy': 'eol::' + pol, 'tracking': ['eager', 'lazy'], 'rewind_mode': mode,
                       'initial_counters': 'symbolic byte in [0,%s], line/column in [1,%s]' % (CMAX, CMAX), 'start': 'symbolic bump(s), s <= n'}
-            kw = dict(unwind=n + 2, cbmc_defines=cd, mem_gb=3 if c.get('heavy') else 2, bounds=bounds)
+            kw = dict(unwind=n + 2 + c.get('loops', 0), cbmc_defines=cd, mem_gb=3 if c.get('heavy') else 2, bounds=bounds)
             known = ['C06_LAZYTREE'] if c.get('tree') else ['C06_LAZYBYTE']
             base = list(known)
             d12 = pol == 'cr_crlf' and c.get('d12')
